@@ -3,6 +3,11 @@
 # kind: rapid (default) | exhaustive | plain
 # quick/thorough: checks = total rapid cases over all shards; shards = processes; timeout = seconds per shard
 PARTS = {
+    "C13": [
+        {"test": "TestVfC13Reclaim",
+         "quick": {"checks": 1500, "shards": 4, "timeout": 900},
+         "thorough": {"checks": 100000, "shards": 16, "timeout": 3000}},
+    ],
     "C03": [
         {"test": "TestVfC03Signing",
          "quick": {"checks": 3000, "shards": 4, "timeout": 600},
@@ -105,6 +110,16 @@ PARTS = {
 LEVEL = {}  # default: exploration
 
 RULES = {
+    "C13": "direct-driven gossipsub node with scoring, gater, test and partial-message extensions, peer exchange, tag tracer, automatic "
+           "heartbeats and a slow / rejecting validator; one or two remote peers of every protocol version (one optionally a configured "
+           "direct peer) plus a bystander; histories (<= 40 ops) of outbound open / close / reset-with-connection-kept / repeated "
+           "flapping, inbound open / close in any order, subscription / GRAFT / PRUNE / IHAVE / IWANT / IDONTWANT / extension / partial "
+           "/ test-extension RPCs (also on an inbound stream that outlives the outbound one), publishes (valid, bad signature, rejected, "
+           "validation finishing after the disconnect), blacklisting, heartbeats, time; then final disconnect and 3-12 virtual minutes of "
+           "retention. Oracle: the peer ID is absent from an explicit list of 25 maps, from a reflection walk over the whole PubSub "
+           "object graph, and from the connection manager's protections (configuration such as the direct-peer set and the blacklist "
+           "exempt). Non-trivial: an RPC after the outbound close, streams closed in another order than opened, or a validation that may "
+           "outlive the connection. Distinct = case JSON.",
     "C03": "direct-driven floodsub node under each signature policy (StrictSign, StrictNoSign, LaxSign, LaxNoSign) x author mode (default, "
            "custom author with key in the peerstore, anonymous); 1-12 messages per case: honestly signed messages of three remote authors "
            "(two ed25519 with extractable key, one ECDSA with attached key) forwarded by the author or another peer and hit by 0-3 of 20 "
@@ -232,6 +247,8 @@ RULES = {
 }
 
 ASSUMPTIONS = {
+    "C13": ["the stub host refuses new streams, so the node's own reopening attempts after a stream reset fail; at most one such attempt is pending per peer, as in the real flow",
+            "retention wait: 3 virtual minutes, 12 when the dead-peer back-off table was used (its entries live 10 min + 1 min clean-up)"],
     "C19": ["refused pushes are not observable at the queue, so DROP_RPC events are only checked for not shadowing a SEND (a refused push that is also traced as sent is caught, a refused push traced as nothing is not)"],
     "C18": ["the exhaustive part drives the handler's log with the notifications the event loop produces (join only for a non-member, leave only for a member); the node part checks that the event loop really does so"],
     "C06": ["the node's message ID function is data-derived so that IDONTWANT can name a message before it exists",
@@ -259,6 +276,13 @@ ASSUMPTIONS = {
 HOOK_COMMITS = ["407c3ed", "8f1d1a5"]
 
 META = {
+    "C13": {
+        "text": "Stateful property-based testing over stream-event interleavings and RPC mixes with an absence oracle (explicit map list + "
+                "reflection walk + connection-manager protections) after the retention periods; finds missing deletes, never-expiring "
+                "retention and state created after the disconnect.",
+        "note": "Direct-drive bypasses comm.go; the reflection walk follows only this module's types. One open known finding (gater entry created by a late validation verdict) is excused by its own key.",
+        "technique": "stateful property-based testing (rapid) with absence oracle incl. reflection walk of the object graph",
+    },
     "C03": {
         "text": "Property-based testing with mutation-style input generation (tamper and recombine honest messages) against an independent "
                 "re-implementation of the acceptance rule, checked in both directions and differentially at unit level; finds skipped "
